@@ -162,6 +162,8 @@ const BASE: [&str; 7] = ["x.log", "*.log", "a/", "/a", "a/x.log", "**/x.log", "a
 const EXTRA: [&str; 3] = ["test/", "/test", "test/**"];
 const NAMES: [&str; 3] = [".gitignore", ".ignore", ".hgignore"];
 
+const HANDOFF_REPEATS: usize = 4;
+
 #[derive(Clone, Debug, PartialEq, Eq, Hash)]
 struct FileSpec {
 	site: String,
@@ -602,7 +604,70 @@ fn eval_config(ctx: &Ctx, cfg: &Config) -> Eval {
 		.unwrap_or_else(|_| Err("panicked".to_string()));
 		results.push((c, r));
 	}
+	// hand-off leg: the same files given to `GlobsetFilterer::new` (the CLI's path to the
+	// ignore filter) with no other filter configured must give the model's verdicts too —
+	// built several times, since anything that reorders files there (e.g. a randomly seeded
+	// set) shows only in some constructions
+	let mut handoff: Vec<Result<Vec<bool>, String>> = vec![];
+	if cfg.files.len() >= 2 {
+		for _ in 0..HANDOFF_REPEATS {
+			let r = catch_unwind(AssertUnwindSafe(|| {
+				let f = ctx
+					.rt
+					.block_on(watchexec_filterer_globset::GlobsetFilterer::new(&ctx.origin, vec![], vec![], vec![], real.to_vec(), vec![]))
+					.map_err(|e| e.to_string())?;
+				let mut v = vec![];
+				for p in &ctx.probes {
+					ev.evals += 1;
+					v.push(!f.check_event(&event_for(p), Priority::Normal).unwrap_or(true));
+				}
+				Ok(v)
+			}))
+			.unwrap_or_else(|_| Err("panicked".to_string()));
+			handoff.push(r);
+		}
+	}
 	remove_files(&real);
+	{
+		// entry index of each probe's check_event observable
+		let ev_entry: Vec<usize> = ents.iter().enumerate().filter(|(_, (_, o))| *o == "check_event").map(|(ei, _)| ei).collect();
+		let mut reported = false;
+		for (ri, r) in handoff.iter().enumerate() {
+			match r {
+				Err(e) => {
+					if !reported {
+						ev.viols.push(Viol { key: "C03/globset-handoff/construction-error".into(), detail: format!("GlobsetFilterer::new on {} failed: {e}", cfg.json()), probe: 0, cons: "globset".into(), observable: "" });
+						reported = true;
+					}
+				}
+				Ok(v) => {
+					for (pi, got) in v.iter().enumerate() {
+						let Some(want) = ev.model_vec[ev_entry[pi]] else { continue };
+						if *got != want && !reported {
+							let p = &ctx.probes[pi];
+							let stable = handoff.iter().all(|x| x.as_ref().map_or(false, |x| x[pi] == *got));
+							ev.viols.push(Viol {
+								key: format!(
+									"C03/globset-handoff/{}",
+									if stable { "verdict-differs-from-model" } else if cfg.has_same_site_files() { "same-dir-order-not-kept" } else { "unstable-across-constructions" }
+								),
+								detail: format!(
+									"files {} ; probe {} as {} ; GlobsetFilterer::new(ignore files only) construction #{ri} says ignored={got}, model says ignored={want}",
+									cfg.json(),
+									p.rel,
+									if p.is_dir { "dir" } else { "file" }
+								),
+								probe: pi,
+								cons: "globset".into(),
+								observable: "check_event",
+							});
+							reported = true;
+						}
+					}
+				}
+			}
+		}
+	}
 	for (c, r) in &results {
 		if let Err(e) = r {
 			let key = if e == "panicked" { "C03/panic" } else { "C03/construction-error" };
